@@ -474,8 +474,8 @@ func fixedPointC41(input []byte) (decoded bool, err error) {
 			return true, fmt.Errorf("node %d: generic attributes %d -> %d", i, len(n0[i].GenericAttributes), len(n1[i].GenericAttributes))
 		}
 		for k, v := range n0[i].GenericAttributes {
-			var x, y any
-			if json.Unmarshal(v, &x) != nil || json.Unmarshal(n1[i].GenericAttributes[k], &y) != nil || fmt.Sprint(x) != fmt.Sprint(y) {
+			// the same JSON text up to insignificant white space and the \u003c style escapes of the encoder
+			if !bytes.Equal(canonJSONC41(v), canonJSONC41(n1[i].GenericAttributes[k])) {
 				return true, fmt.Errorf("node %d: generic attribute %q changed: %s -> %s", i, k, v, n1[i].GenericAttributes[k])
 			}
 		}
@@ -485,6 +485,15 @@ func fixedPointC41(input []byte) (decoded bool, err error) {
 		return true, fmt.Errorf("encode(decode(.)) is not a fixed point (%v):\n%s\n%s", eerr, b1, b2)
 	}
 	return true, nil
+}
+
+func canonJSONC41(v []byte) []byte {
+	var c, e bytes.Buffer
+	if err := json.Compact(&c, v); err != nil {
+		return append([]byte("!invalid:"), v...)
+	}
+	json.HTMLEscape(&e, c.Bytes())
+	return e.Bytes()
 }
 
 func isNastyC41(s string) bool {
